@@ -55,6 +55,18 @@ class M(Model):
         # exact comparison of the stored float32 numbers (float64 represents them exactly)
         return ~p & (w.astype(np.float64) <= float(rb))
 
+    # ---- plan bias ('solve' mode of the drivers)
+    def solve_action(self, s, r=0):
+        """Greedy by value/weight among the items that still fit (r picks among the three best):
+        long episodes that fill the knapsack up to the point where nothing fits."""
+        w, v, p, rb = self._arrays(s)
+        idx = np.flatnonzero(self._legal(w, p, rb))
+        if idx.size == 0:
+            return None
+        ratio = v[idx].astype(np.float64) / np.maximum(w[idx].astype(np.float64), 1e-9)
+        order = idx[np.argsort(-ratio, kind="stable")]
+        return np.asarray(order[int(r) % min(3, order.size)], np.int32)
+
     # ---- C04 / C05
     def legal(self, s):
         w, _, p, rb = self._arrays(s)
